@@ -39,110 +39,6 @@ func checkC13(c *Ctx) {
 
 // ---------------------------------------------------------------- R4 (+ discovery)
 
-func (a *c13) members() {
-	c := a.c
-	for _, tn := range []string{"LineString", "MultiLineString", "Polygon", "MultiPolygon"} {
-		m := c.P.Method("geom", tn, "Simplify")
-		fd := c.P.Decl(m)
-		if fd == nil {
-			c.Unk("C13.R4", "geom."+tn+".Simplify", token.NoPos, "API anchor does not resolve")
-			continue
-		}
-		name := c.P.FuncName(m)
-		recv := receiverVar(a.info, fd)
-		tol := paramVars(a.info, fd.Type)[0]
-		sc := newFnScope(a.info, fd.Body)
-		msg := ""
-		var pos token.Pos = fd.Pos()
-		prob := func(p token.Pos, s string) {
-			if msg == "" {
-				msg, pos = s, p
-			}
-		}
-		// calls into the curve simplifier: a repo function ([]Point-like, []Path, float64) []Point
-		ast.Inspect(fd.Body, func(n ast.Node) bool {
-			call, ok := n.(*ast.CallExpr)
-			if !ok {
-				return true
-			}
-			f := callee(a.info, call)
-			if f == nil || c.P.Decl(f) == nil || f.Type().(*types.Signature).Recv() != nil || len(call.Args) != 3 {
-				return true
-			}
-			a.curve = f
-			if objOf(a.info, call.Args[2]) != tol {
-				prob(call.Pos(), "tolerance is not passed through")
-			}
-			switch tn {
-			case "LineString":
-				if objOf(a.info, sc.canon(call.Args[0])) != recv {
-					prob(call.Pos(), "the receiver is not the curve being simplified")
-				}
-				if lit, ok := unparen(call.Args[1]).(*ast.CompositeLit); !ok || len(lit.Elts) != 0 {
-					if !isNilConst(a.info, call.Args[1]) {
-						prob(call.Pos(), "a lone line string has no other curves")
-					}
-				}
-			case "Polygon":
-				if objOf(a.info, call.Args[1]) != recv {
-					prob(call.Pos(), "the whole polygon must be passed as the other curves (rings must not be made to cross each other)")
-				}
-			}
-			return true
-		})
-		if tn != "LineString" {
-			copyLoops(a.info, sc, recv, fd, false, prob)
-			// result allocation
-			ast.Inspect(fd.Body, func(n ast.Node) bool {
-				r, ok := n.(*ast.ReturnStmt)
-				if !ok || len(r.Results) != 1 {
-					return true
-				}
-				o := objOf(a.info, r.Results[0])
-				okMake := false
-				if o != nil {
-					for _, d := range sc.defs[o] {
-						if call, ok := unparen(d).(*ast.CallExpr); ok && d != nil && builtinName(a.info, call) == "make" && len(call.Args) >= 2 {
-							af := sc.aff(call.Args[1])
-							okMake = af.ok && af.K == 0 && af.Of != nil && objOf(a.info, af.Of) == recv
-						}
-					}
-				}
-				if !okMake {
-					prob(r.Pos(), "result is not a fresh collection with one entry per member")
-				}
-				return true
-			})
-			// member simplification: elem.Simplify(tol) or curve(elem, …)
-			found := false
-			ast.Inspect(fd.Body, func(n ast.Node) bool {
-				call, ok := n.(*ast.CallExpr)
-				if !ok {
-					return true
-				}
-				if sel, ok := unparen(call.Fun).(*ast.SelectorExpr); ok && sel.Sel.Name == "Simplify" && len(call.Args) == 1 {
-					found = true
-					if objOf(a.info, call.Args[0]) != tol {
-						prob(call.Pos(), "tolerance is not passed through")
-					}
-				}
-				if f := callee(a.info, call); f != nil && f == a.curve {
-					found = true
-				}
-				return true
-			})
-			if !found {
-				prob(fd.Pos(), "members are not simplified")
-			}
-		}
-		if msg != "" {
-			c.Bad("C13.R4", name, pos, "%s", msg)
-		} else {
-			c.OK("C13.R4", name, fd.Pos(), "member i → index i of a fresh result, full range")
-		}
-	}
-}
-
 // ---------------------------------------------------------------- R1
 
 // exactCrossing: tolerances in the intersection routine reached from the simplicity test are zero.
